@@ -353,7 +353,15 @@ def _run_rest(ctx, res):
                         for lam in date_l:
                             arg = lam.args.args[0].arg
                             env = {'start_date': s_, 'end_date': e_, arg: Rec(last_modified=lm)}
-                            got = got and bool(eval_pred(lam.body, env, ik.module))
+                            # the predicate acts only where it is installed: the conditions around the statement that stores it
+                            installed = True
+                            for st_i, conds_i in _common.guards_of(ik.node, lambda x, lam=lam: x is lam):
+                                for t_i, pol_i in conds_i:
+                                    if not any(isinstance(x, ast.Name) and x.id in ('start_date', 'end_date') for x in ast.walk(t_i)):
+                                        continue
+                                    installed = installed and (bool(eval_pred(t_i, {'start_date': s_, 'end_date': e_}, ik.module)) == pol_i)
+                            if installed:
+                                got = got and bool(eval_pred(lam.body, env, ik.module))
                         cc.evaluations += 1
                         if got != expect:
                             wrong.append((s_, e_, lm, expect, got))
